@@ -138,20 +138,24 @@ def fit_needs_contribs(fit):
     return any(f['name'] in CONTRIB_PARAMS for f in fit)
 
 
-def configure_optimizer(opt, fit, derived=None, model=None):
-    """Apply the fitted-parameter selection to a real Optimizer."""
-    for name in list(opt._model.fittingParameters):
+def configure_optimizer(opt, fit, derived=None, model=None, observed=None):
+    """Apply the fitted-parameter selection to a real Optimizer (the model and
+    observation it was built with are handed over by the caller: the
+    optimizer's own attribute names are not part of any property)."""
+    model = model if model is not None else opt._model
+    observed = observed if observed is not None else opt._observed
+    for name in list(model.fittingParameters):
         opt.disable_fit(name)
-    for name in list(opt._observed.fittingParameters):
+    for name in list(observed.fittingParameters):
         opt.disable_fit(name)
     for f in fit:
         opt.enable_fit(f['name'])
         apply_fit_entry(opt, f)
     if derived is not None:
-        for name, tup in list(opt._model.derivedParameters.items()):
-            opt._model.derivedParameters[name] = tup[:3] + (name in derived,)
-        for name, tup in list(opt._observed.derivedParameters.items()):
-            opt._observed.derivedParameters[name] = tup[:3] + (name in derived,)
+        for name, tup in list(model.derivedParameters.items()):
+            model.derivedParameters[name] = tup[:3] + (name in derived,)
+        for name, tup in list(observed.derivedParameters.items()):
+            observed.derivedParameters[name] = tup[:3] + (name in derived,)
 
 
 def spell_mode(f):
